@@ -139,8 +139,10 @@ class Interp(object):
                              val_cardinality=val_card)
         return {"new": self._reg(prop), "id_in": oid}
 
-    def op_create_section(self, t, name=None, type="n.s.", oid=None):
-        sec = t.create_section(name=name, type=type, oid=oid)
+    def op_create_section(self, t, name=None, type="n.s.", oid=None, link=None, definition=None,
+                          repository=None):
+        sec = t.create_section(name=name, type=type, oid=oid, link=link, definition=definition,
+                               repository=repository)
         return {"new": self._reg(sec), "id_in": oid}
 
     def op_create_property(self, t, name=None, values=None, dtype=None, oid=None):
@@ -239,6 +241,27 @@ class Interp(object):
         else:
             new = x.clone(children=children, keep_id=keep_id)
         return {"new": self._reg(new), "of": self.U.index(x)}
+
+    def op_template_clone(self, f, i=0, children=True, keep_id=False):
+        """TemplateHandler.clone_section on a document of the durable store (file: URL).  The
+        template document the handler keeps is registered, so that the frame monitor watches it."""
+        import odml.templates as TP
+        if not self.U.files:
+            raise Skip("no file")
+        ent = self.U.files[f % len(self.U.files)]
+        if ent["backend"] != "xml":
+            raise Skip("templates are XML files")
+        if self.U.templates is None:
+            self.U.templates = TP.TemplateHandler()
+        url = "file://" + ent["path"]
+        doc = self.U.templates.load(url)
+        if doc is None or not len(doc.sections):
+            raise Skip("template not loadable or empty")
+        self._reg(doc)
+        sec = doc.sections[i % len(doc.sections)]
+        of = self._reg(sec)
+        new = self.U.templates.clone_section(url, sec.name, children=children, keep_id=keep_id)
+        return {"new": self._reg(new), "of": of}
 
     def op_export_leaf(self, x):
         new = x.export_leaf()
